@@ -11,7 +11,7 @@ RULE = (
     "whose row order the query leaves undefined). non-trivial = e1 contains a Fused node; distinct by (program hash, value id)"
 )
 ASSUMPTIONS = ["row order inside partitions produced by a disk shuffle is compared as a multiset"]
-BUDGET_S = {"quick": 170, "thorough": 3000}
+BUDGET_S = {"quick": 170, "thorough": 900}
 
 W = {"assign": 4, "binop": 4, "binop_scalar": 3, "series_red_reuse": 3, "filter": 3, "filter_pred": 3, "where": 2, "col": 3, "cols": 3, "unary": 2, "map_partitions": 2.5, "fillna": 1.5,
      "astype": 1, "concat1": 2, "loc_slice": 1.5, "shuffle": 1.2, "merge": 1.5, "groupby_agg": 1.2, "repartition": 1.2, "partitions": 1.5, "reset_index": 1, "to_frame": 1, "cut": 0.7, "head": 0.7, "reduce": 2.5, "scalar_arith": 3, "scalar_binop": 3, "bcast_scalar": 4}
